@@ -394,3 +394,609 @@ def check_fnmod_predicates(report, crate, exp, cfg, rule="R-PRED"):
             report.add(rule, key0 + " extra " + x, "generated impl `%s` has the undeclared requirement `%s`"
                        % (imp["path"], x), where=exp.label(), data={"actual": sorted(actual), "expected": sorted(expected), "config": cfg})
     return v
+
+
+# ----------------------------------------------------------------------------------------
+# trait mode / impl-block mode
+
+class TraitView:
+    """Expansion of `#[entrait(...)] trait Trait { .. }`."""
+
+    def __init__(self, crate, exp):
+        self.crate = crate
+        self.exp = exp
+        a = exp.attr
+        self.impl_trait_name = a.trait_name if a and a.positional else None
+        db = a.opts.get("delegate_by") if a else None
+        if db is None or db is True or db == "Self":
+            self.kind = "self"
+        elif db == "ref":
+            self.kind = "asref"
+        elif db == "Borrow":
+            self.kind = "borrow"
+        else:
+            self.kind = "trait"
+            self.selector_name = db
+        traits = [d for d in exp.defs if d["kind"] == "Trait" and d.get("parent") == exp.module]
+        special = {self.impl_trait_name}
+        if self.kind == "trait":
+            special.add(self.selector_name)
+        mains = [t for t in traits if last_seg(t["path"]) not in special]
+        self.trait = mains[0] if mains else None
+        self.impl_trait = next((t for t in traits if last_seg(t["path"]) == self.impl_trait_name), None) \
+            if self.impl_trait_name else None
+        self.selector = next((t for t in traits if self.kind == "trait" and last_seg(t["path"]) == self.selector_name), None)
+        mine = set(id(d) for d in exp.defs)
+        self.impls = []
+        if self.trait:
+            for i in impls_of(crate, self.trait["path"]):
+                if id(i) in mine and not in_macro(i, ("unimock", "automock")) and is_impl_adt(i["self_ty"]):
+                    self.impls.append(i)
+        self.uses_async_trait = any(in_macro(d, ("async_trait",)) for d in exp.defs)
+
+
+def trait_args_s(trait_def):
+    """The trait applied to its own type parameters, e.g. `crate::m::Tr<T, U>`."""
+    names = [g["name"] for g in trait_def["generics"]["own"] if g["kind"] != "lifetime" and g["name"] != "Self"]
+    return trait_def["path"] + ("<" + ", ".join(names) + ">" if names else "")
+
+
+def check_trait_forwarding(report, crate, exp, cfg, rule="R-DELEG"):
+    """C06 / C07 front half."""
+    v = TraitView(crate, exp)
+    key0 = exp.ident()
+    if v.trait is None:
+        report.add(rule, key0 + " trait", "the entraited trait was not found in the expansion", where=exp.label())
+        return v
+    if len(v.impls) != 1:
+        report.add(rule, key0 + " impl", "expected exactly one generated `impl %s for ::entrait::Impl<T>`, found %d"
+                   % (last_seg(v.trait["path"]), len(v.impls)), where=exp.label())
+        return v
+    imp = v.impls[0]
+    methods = trait_methods(crate, v.trait)
+    ims = impl_methods(crate, imp)
+    if v.impl_trait_name and v.impl_trait is None:
+        report.add(rule, key0 + " impl-trait", "delegation-target trait `%s` was not generated" % v.impl_trait_name, where=exp.label())
+        return v
+    target_methods = {}
+    if v.impl_trait is not None:
+        target_methods = {last_seg(m["path"]): m for m in trait_methods(crate, v.impl_trait)}
+    for m in methods:
+        mname = last_seg(m["path"])
+        mkey = "%s :: %s" % (key0, mname)
+        if m.get("has_body"):
+            continue  # default method: nothing to forward
+        im = ims.get(mname)
+        if im is None:
+            report.add(rule, mkey, "impl for Impl<T> lacks method `%s`" % mname, where=exp.label())
+            continue
+        report.count("generated_methods_checked")
+        n = len(im["params"]) if im.get("has_body") else 0
+        if in_macro(im, ("async_trait",)):
+            _check_trait_async_trait(report, rule, mkey, im, m, v, exp, target_methods)
+            continue
+        b = Body(im)
+        desc = describe(b)
+        report.sample({"method": im["path"], "config": cfg, "delegate": desc})
+        for p in b.problems:
+            report.add(rule, mkey + " shape", "body of `%s` is not a single delegating call: %s" % (im["path"], p),
+                       where=exp.label(), data=desc)
+        if b.delegate is None:
+            continue
+        _check_trait_delegate(report, rule, mkey, b, b.delegate, b.hops, getattr(b, "recv", None), im, m, v, exp, target_methods, desc,
+                              b.arg_param, b.awaited)
+    return v
+
+
+def _gargs(c):
+    return [a for a in c.get("args", []) if a.get("t") != "region"]
+
+
+def _check_trait_delegate(report, rule, mkey, b, d, hops, recv, im, m, v, exp, target_methods, desc, arg_param, awaited):
+    c = callee_of(d)
+    n = len(im["params"])
+    mname = last_seg(m["path"])
+    is_async = bool(im.get("asyncness")) or m["sig"]["output"].get("rpitit") is True and False
+    if v.impl_trait is None:
+        # ---- C06: forward to T (or to the dyn Trait obtained from T)
+        if d["k"] != "mcall" or c.get("def") != m["path"]:
+            report.add(rule, mkey + " callee", "method forwards to `%s`, expected the same trait method `%s`"
+                       % (c.get("def") or d.get("name"), m["path"]), where=exp.label(), data=desc)
+            return
+        want_hops = {"self": [ASREF], "asref": [ASREF, ASREF], "borrow": [BORROW, ASREF]}[v.kind]
+        got_hops = [callee_of(h).get("def") for h in hops]
+        if got_hops != want_hops:
+            report.add(rule, mkey + " hops", "receiver goes through %s, expected %s for delegation kind `%s`"
+                       % (got_hops, want_hops, v.kind), where=exp.label(), data=desc)
+            return
+        if arg_param(recv) != 0:
+            report.add(rule, mkey + " recv", "receiver chain does not start at `self`", where=exp.label(), data=desc)
+        # innermost hop: Impl<T> -> T through implementation's AsRef
+        inner = callee_of(hops[-1])
+        r = inner.get("resolved")
+        ia = _gargs(inner)
+        if not (len(ia) == 2 and is_impl_adt(ia[0]) and ia[1].get("t") == "param"):
+            report.add(rule, mkey + " hop-impl", "first adapter hop is not <Impl<T> as AsRef<T>>::as_ref (%s)"
+                       % [ty_s(x) for x in ia], where=exp.label(), data=desc)
+        elif not (isinstance(r, dict) and r["def"].startswith("<implementation::Impl<T> as core::convert::AsRef<T>>")):
+            report.add(rule, mkey + " hop-impl-resolved", "first adapter hop resolves to `%s`, expected implementation's AsRef impl"
+                       % (r["def"] if isinstance(r, dict) else r), where=exp.label(), data=desc)
+        selfarg = _gargs(c)[0] if _gargs(c) else {}
+        if v.kind == "self":
+            if selfarg.get("t") != "param":
+                report.add(rule, mkey + " provider", "forwarded call is on `%s`, expected the type parameter T" % ty_s(selfarg),
+                           where=exp.label(), data=desc)
+        else:
+            outer = callee_of(hops[0])
+            oa = _gargs(outer)
+            ok = len(oa) == 2 and oa[0].get("t") == "param" and oa[1].get("t") == "dyn" and \
+                (oa[1].get("principal") or {}).get("trait") == v.trait["path"]
+            if not ok:
+                report.add(rule, mkey + " provider", "second adapter hop is `%s<%s>`, expected T: %s<dyn %s>"
+                           % (outer.get("def"), ", ".join(ty_s(x) for x in oa), "AsRef" if v.kind == "asref" else "Borrow",
+                              v.trait["path"]), where=exp.label(), data=desc)
+            r = c.get("resolved")
+            is_dyn_self = selfarg.get("t") == "dyn" and (selfarg.get("principal") or {}).get("trait") == v.trait["path"]
+            if not is_dyn_self or (isinstance(r, dict) and not r["kind"].startswith("Virtual")):
+                report.add(rule, mkey + " virtual", "forwarded call is not a virtual call on `dyn %s` (Self = %s, resolved = %s)"
+                           % (v.trait["path"], ty_s(selfarg), r), where=exp.label(), data=desc)
+        args = [arg_param(a) for a in d["args"]]
+        if args != list(range(1, n)):
+            report.add(rule, mkey + " operands", "operands are parameters %s, expected %s" % (args, list(range(1, n))),
+                       where=exp.label(), data=desc)
+    else:
+        # ---- C07 front half
+        tm = target_methods.get(mname)
+        if tm is None:
+            report.add(rule, mkey + " target-method", "delegation-target trait lacks method `%s`" % mname, where=exp.label())
+            return
+        if c.get("def") != tm["path"]:
+            report.add(rule, mkey + " callee", "method calls `%s`, expected `%s`" % (c.get("def") or d.get("name"), tm["path"]),
+                       where=exp.label(), data=desc)
+            return
+        ga = _gargs(c)
+        if v.kind == "trait":
+            ok = d["k"] == "call" and len(ga) >= 2 and ga[0].get("t") == "alias" and ga[0].get("kind") == "projection" \
+                and v.selector is not None and ga[0].get("trait") == v.selector["path"] and ga[0].get("assoc") == "Target"
+            if ok:
+                pa = [a for a in ga[0]["args"] if a.get("t") != "region"]
+                ok = len(pa) == 2 and pa[0].get("t") == "param" and pa[1].get("t") == "param" and pa[0]["name"] == pa[1]["name"]
+            if not ok:
+                report.add(rule, mkey + " projection", "implementation is selected as `%s`, expected the projection <T as %s<T>>::Target"
+                           % (ty_s(ga[0]) if ga else "?", v.selector_name), where=exp.label(), data=desc)
+            if len(ga) >= 2 and ga[1].get("t") != "param":
+                report.add(rule, mkey + " impl-t", "TraitImpl is instantiated with `%s`, expected T" % ty_s(ga[1]), where=exp.label(), data=desc)
+            args = [arg_param(a) for a in d["args"]]
+            if args != list(range(0, n)):
+                report.add(rule, mkey + " operands", "operands are parameters %s, expected %s (self is the dependency argument)"
+                           % (args, list(range(0, n))), where=exp.label(), data=desc)
+            if hops:
+                report.add(rule, mkey + " hops", "static delegation goes through adapter hops %s" % desc["hops"], where=exp.label(), data=desc)
+        else:
+            want = ASREF if v.kind == "asref" else BORROW
+            got_hops = [callee_of(h).get("def") for h in hops]
+            if d["k"] != "mcall" or got_hops != [want]:
+                report.add(rule, mkey + " hops", "dynamic delegation receiver goes through %s, expected [%s]" % (got_hops, want),
+                           where=exp.label(), data=desc)
+                return
+            outer = callee_of(hops[0])
+            oa = _gargs(outer)
+            ok = len(oa) == 2 and oa[0].get("t") == "param" and oa[1].get("t") == "dyn" and \
+                (oa[1].get("principal") or {}).get("trait") == v.impl_trait["path"]
+            if ok:
+                pa = [a for a in oa[1]["principal"]["args"] if a.get("t") != "region"]
+                ok = len(pa) >= 1 and pa[0].get("t") == "param"
+            if not ok:
+                report.add(rule, mkey + " provider", "adapter is `%s<%s>`, expected T: AsRef/Borrow<dyn %s<T>>"
+                           % (outer.get("def"), ", ".join(ty_s(x) for x in oa), v.impl_trait["path"]), where=exp.label(), data=desc)
+            if arg_param(recv, True) != 0:
+                report.add(rule, mkey + " recv", "adapter is not applied to `&*self`", where=exp.label(), data=desc)
+            r = c.get("resolved")
+            is_dyn_self = bool(ga) and ga[0].get("t") == "dyn" and (ga[0].get("principal") or {}).get("trait") == v.impl_trait["path"]
+            if not is_dyn_self or (isinstance(r, dict) and not r["kind"].startswith("Virtual")):
+                report.add(rule, mkey + " virtual", "call is not a virtual call on `dyn %s<T>` (Self = %s, resolved = %s)"
+                           % (v.impl_trait["path"], ty_s(ga[0]) if ga else "?", r), where=exp.label(), data=desc)
+            args = [arg_param(a) for a in d["args"]]
+            if args != list(range(0, n)):
+                report.add(rule, mkey + " operands", "operands are parameters %s, expected %s (self is the dependency argument)"
+                           % (args, list(range(0, n))), where=exp.label(), data=desc)
+    want_async = m.get("asyncness") or _returns_future(m)
+    if awaited != bool(want_async):
+        report.add(rule, mkey + " await", "trait method is %sasync but the forwarded call is %sawaited"
+                   % ("" if want_async else "not ", "" if awaited else "not "), where=exp.label(), data=desc)
+
+
+def _returns_future(m):
+    """Trait method declared `fn m() -> impl Future<..>` by entrait's rewrite of `async fn`."""
+    for c in m.get("output_bounds", []):
+        if c["k"] == "trait" and c["trait"] == "core::future::future::Future":
+            return True
+    if in_macro(m, ("async_trait",)):
+        out = m["sig"]["output"]
+        if out.get("t") == "adt" and out["path"] == "core::pin::Pin" and mentions(
+                out, lambda n: n.get("t") == "dyn" and (n.get("principal") or {}).get("trait") == "core::future::future::Future"):
+            return True
+    return False
+
+
+def _check_trait_async_trait(report, rule, mkey, im, m, v, exp, target_methods):
+    """async_trait rewrote the body; find the single delegate inside and apply the same callee/operand rules."""
+    from .deleg import all_calls, walk, strip
+    report.count("async_trait_methods_checked")
+    calls = all_calls(im["body"])
+    tm = target_methods.get(last_seg(m["path"])) if v.impl_trait is not None else m
+    cand = [c for c in calls if tm is not None and callee_of(c).get("def") == tm["path"]]
+    others = [callee_of(c).get("def") for c in calls if callee_of(c).get("local") and c not in cand]
+    if len(cand) != 1 or others:
+        report.add(rule, mkey + " async_trait-calls", "async_trait body has %d calls of `%s` and other local calls %s; expected exactly one"
+                   % (len(cand), tm["path"] if tm else "?", others), where=exp.label())
+        return
+    d = cand[0]
+    env = {}
+    for i, p in enumerate(im["params"]):
+        if p["p"] == "binding":
+            env[p["hir_id"]] = i
+    lets = []
+
+    def coll(n):
+        if n.get("k") == "block":
+            for st in n["stmts"]:
+                if st["s"] == "let" and st["pat"]["p"] == "binding" and st["init"] is not None:
+                    lets.append(st)
+    walk(im["body"], coll)
+    changed = True
+    while changed:
+        changed = False
+        for st in lets:
+            init = strip(st["init"])
+            if init["k"] == "local" and init["hir_id"] in env and st["pat"]["hir_id"] not in env:
+                env[st["pat"]["hir_id"]] = env[init["hir_id"]]
+                changed = True
+
+    def arg_param(e, impl_deref=False):
+        e = strip(e)
+        if e["k"] == "addrof":
+            inner = strip(e["e"])
+            if inner["k"] == "unary" and inner["op"] == "Deref":
+                return arg_param(inner["e"])
+            return None
+        if e["k"] == "local":
+            return env.get(e["hir_id"])
+        return None
+
+    class H:
+        pass
+    h = H()
+    h.hops = []
+    recv = None
+    if d["k"] == "mcall":
+        r = d["recv"]
+        while True:
+            r = strip(r)
+            if r["k"] == "mcall" and callee_of(r).get("def") in (ASREF, BORROW) and not r["args"]:
+                h.hops.append(r)
+                r = r["recv"]
+                continue
+            if r["k"] == "call" and callee_of(r).get("def") in (ASREF, BORROW) and len(r["args"]) == 1:
+                h.hops.append(r)
+                r = r["args"][0]
+                continue
+            break
+        recv = r
+    n_await = [0]
+
+    def cnt(n):
+        if n.get("k") == "match" and n.get("src") == "AwaitDesugar":
+            n_await[0] += 1
+    walk(im["body"], cnt)
+    desc = {"callee": callee_of(d).get("def"), "args": [arg_param(a) for a in d["args"]],
+            "hops": [callee_of(x).get("def") for x in h.hops], "awaits": n_await[0]}
+    _check_trait_delegate(report, rule, mkey, None, d, h.hops, recv, im, m, v, exp, target_methods, desc, arg_param,
+                          n_await[0] == 1)
+    if n_await[0] > 1:
+        report.add(rule, mkey + " await", "async_trait body awaits %d times" % n_await[0], where=exp.label())
+
+
+class ImplBlockView:
+    """Expansion of `#[entrait] impl TraitImpl for X { .. }`."""
+
+    def __init__(self, crate, exp):
+        self.crate = crate
+        self.exp = exp
+        paths = set(d["path"] for d in exp.defs)
+        self.inherent = next((d for d in exp.defs if d["kind"] == "Impl" and d.get("of_trait") is None
+                              and d.get("parent") not in paths), None)
+        self.trait_impls = [d for d in exp.defs if d["kind"] == "Impl" and d.get("of_trait") is not None
+                            and d.get("parent") not in paths]
+        self.dynamic = bool(exp.attr and exp.attr.impl_ref)
+        self.originals = []
+        if self.inherent:
+            for it in self.inherent["items"]:
+                if it["kind"] == "AssocFn":
+                    d = crate.get(it["path"])
+                    if d is not None:
+                        self.originals.append(d)
+
+    def deps_param(self, orig):
+        ins = orig["sig"]["inputs"]
+        if not ins:
+            return None
+        t = ins[0]
+        while t.get("t") == "ref":
+            t = t["inner"]
+        return t["name"] if t.get("t") == "param" else None
+
+
+def check_implblock(report, crate, exp, cfg, rule="R-DELEG"):
+    """C07 back half: <X as TraitImpl<T>>::m is one call of the inherent X::m defined by the same
+    expansion, deps = Impl<T> (the `__impl` parameter), operands in order; R-PRED for the impl."""
+    v = ImplBlockView(crate, exp)
+    key0 = exp.ident()
+    if v.inherent is None or len(v.trait_impls) != 1:
+        report.add(rule, key0 + " structure", "impl-block expansion must consist of one inherent impl and one trait impl (found %s / %d)"
+                   % ("one" if v.inherent else "no", len(v.trait_impls)), where=exp.label())
+        return v
+    timp = v.trait_impls[0]
+    if ty_s(timp["self_ty"]) != ty_s(v.inherent["self_ty"]):
+        report.add(rule, key0 + " self-type", "inherent impl is for `%s` but the trait impl is for `%s`"
+                   % (ty_s(v.inherent["self_ty"]), ty_s(timp["self_ty"])), where=exp.label())
+    ims = impl_methods(crate, timp)
+    onames = [last_seg(o["path"]) for o in v.originals]
+    if sorted(ims) != sorted(onames):
+        report.add("R-METHODS", key0 + " methods", "trait impl methods %s differ from the block's functions %s" % (sorted(ims), sorted(onames)),
+                   where=exp.label())
+    targs = [a for a in timp["of_trait"]["args"] if a.get("t") != "region"]
+    if not targs or targs[0].get("t") != "param" or targs[0].get("name") != "EntraitT":
+        report.add(rule, key0 + " trait-arg", "trait impl implements `%s<%s>`, expected first argument T"
+                   % (timp["of_trait"]["trait"], ", ".join(ty_s(a) for a in targs)), where=exp.label())
+    skip = 1 if v.dynamic else 0
+    for o in v.originals:
+        mname = last_seg(o["path"])
+        im = ims.get(mname)
+        mkey = "%s :: %s" % (key0, mname)
+        if im is None:
+            continue
+        report.count("generated_methods_checked")
+        if in_macro(im, ("async_trait",)):
+            check_async_trait_implblock(report, rule, mkey, im, o, v, exp, skip)
+            continue
+        b = Body(im)
+        desc = describe(b)
+        report.sample({"method": im["path"], "config": cfg, "delegate": desc})
+        for p in b.problems:
+            report.add(rule, mkey + " shape", "body of `%s` is not a single delegating call: %s" % (im["path"], p),
+                       where=exp.label(), data=desc)
+        if b.delegate is None:
+            continue
+        d = b.delegate
+        c = callee_of(d)
+        if d["k"] != "call" or c.get("def") != o["path"]:
+            report.add(rule, mkey + " callee", "method calls `%s`, expected the inherent function `%s` of the same block"
+                       % (c.get("def") or d.get("name"), o["path"]), where=exp.label(), data=desc)
+            continue
+        r = c.get("resolved")
+        if not isinstance(r, dict) or r["def"] != o["path"] or r["kind"] != "Item":
+            report.add(rule, mkey + " callee-resolved", "callee does not resolve statically to `%s`: %s" % (o["path"], r),
+                       where=exp.label(), data=desc)
+        n = len(im["params"])
+        args = b.delegate_args()
+        if args != list(range(skip, n)):
+            report.add(rule, mkey + " operands", "operands are parameters %s, expected %s" % (args, list(range(skip, n))),
+                       where=exp.label(), data=desc)
+        if b.param_names and (len(b.param_names) <= skip or b.param_names[skip] != "__impl"):
+            report.add(rule, mkey + " impl-param", "dependency parameter of the generated method is `%s`, expected `__impl`"
+                       % (b.param_names[skip] if len(b.param_names) > skip else None), where=exp.label(), data=desc)
+        if b.awaited != bool(o["asyncness"]):
+            report.add(rule, mkey + " await", "function is %sasync but the call is %sawaited"
+                       % ("" if o["asyncness"] else "not ", "" if b.awaited else "not "), where=exp.label(), data=desc)
+        dp = v.deps_param(o)
+        if dp is not None:
+            names = [g["name"] for g in o["generics"]["own"] if g["kind"] != "lifetime"]
+            gargs = _gargs(c)
+            # inherent assoc fn generics: parent impl generics (none) + own
+            if dp in names and len(gargs) >= len(names):
+                got = gargs[len(gargs) - len(names) + names.index(dp)]
+                if not (is_impl_adt(got) and ty_s(got) == "implementation::Impl<EntraitT>"):
+                    report.add(rule, mkey + " deps-type", "function is instantiated with deps = `%s`, expected Impl<T>" % ty_s(got),
+                               where=exp.label(), data=desc)
+    # R-PRED
+    actual = pred_set(timp["predicates"]["own"])
+    expected = {"EntraitT: core::marker::Sync", "EntraitT: 'static"}
+    want_self = impl_adt_of(param_ty("EntraitT"))
+    lifted = {}
+    for o in v.originals:
+        dp = v.deps_param(o)
+        for c in o["predicates"]["own"]:
+            if c["k"] == "trait" and c["trait"] in IMPLICIT:
+                continue
+            if dp is not None and mentions(c, lambda n: n.get("t") == "param" and n.get("name") == dp):
+                expected.add(clause_s(subst(c, {dp: want_self})))
+            else:
+                lifted.setdefault(clause_s(c), []).append(last_seg(o["path"]))
+    for cs, fnames in lifted.items():
+        if cs in actual:
+            expected.add(cs)
+    report.count("impls_compared")
+    report.count("predicates_compared", len(expected | actual))
+    for m in sorted(expected - actual):
+        report.add("R-PRED", key0 + " missing " + m, "trait impl of the block lacks the requirement `%s`" % m, where=exp.label(),
+                   data={"actual": sorted(actual), "expected": sorted(expected)})
+    for x in sorted(actual - expected):
+        report.add("R-PRED", key0 + " extra " + x, "trait impl of the block has the undeclared requirement `%s`" % x, where=exp.label(),
+                   data={"actual": sorted(actual), "expected": sorted(expected)})
+    return v
+
+
+def check_async_trait_implblock(report, rule, mkey, im, o, v, exp, skip):
+    from .deleg import all_calls, walk, strip
+    report.count("async_trait_methods_checked")
+    calls = all_calls(im["body"])
+    local = [c for c in calls if callee_of(c).get("local")]
+    if len(local) != 1 or callee_of(local[0]).get("def") != o["path"]:
+        report.add(rule, mkey + " async_trait-calls", "async_trait body calls %s, expected exactly `%s`"
+                   % ([callee_of(c).get("def") for c in local], o["path"]), where=exp.label())
+        return
+    d = local[0]
+    env = {}
+    for i, p in enumerate(im["params"]):
+        if p["p"] == "binding":
+            env[p["hir_id"]] = i
+    lets = []
+
+    def coll(n):
+        if n.get("k") == "block":
+            for st in n["stmts"]:
+                if st["s"] == "let" and st["pat"]["p"] == "binding" and st["init"] is not None:
+                    lets.append(st)
+    walk(im["body"], coll)
+    changed = True
+    while changed:
+        changed = False
+        for st in lets:
+            init = strip(st["init"])
+            if init["k"] == "local" and init["hir_id"] in env and st["pat"]["hir_id"] not in env:
+                env[st["pat"]["hir_id"]] = env[init["hir_id"]]
+                changed = True
+    got = []
+    for a in d["args"]:
+        a = strip(a)
+        got.append(env.get(a.get("hir_id")) if a["k"] == "local" else None)
+    n = len(im["params"])
+    if got != list(range(skip, n)):
+        report.add(rule, mkey + " operands", "async_trait body passes parameters %s, expected %s" % (got, list(range(skip, n))),
+                   where=exp.label())
+
+
+def _dyn_s(trait_path, args, autos=()):
+    s = "dyn " + trait_path + ("<" + ", ".join(args) + ">" if args else "")
+    for a in sorted(autos):
+        s += " + " + a
+    return s
+
+
+def check_trait_predicates(report, crate, exp, cfg, rule="R-PRED"):
+    """C06: predicates of `impl Trait for Impl<T>` == {T: Sync, T: 'static} ∪ provider ∪ the trait's own
+    where-predicates."""
+    v = TraitView(crate, exp)
+    key0 = exp.ident()
+    if v.trait is None or len(v.impls) != 1:
+        return v
+    imp = v.impls[0]
+    actual = pred_set(imp["predicates"]["own"])
+    names = [g["name"] for g in v.trait["generics"]["own"] if g["kind"] != "lifetime" and g["name"] != "Self"]
+    targs = "<" + ", ".join(names) + ">" if names else ""
+    expected = {"EntraitT: core::marker::Sync", "EntraitT: 'static"}
+    if v.kind == "self":
+        expected.add("EntraitT: %s%s" % (v.trait["path"], targs))
+    elif v.kind == "asref":
+        expected.add("EntraitT: core::convert::AsRef<%s>" % _dyn_s(v.trait["path"], names))
+    elif v.kind == "borrow":
+        expected.add("EntraitT: core::borrow::Borrow<%s>" % _dyn_s(v.trait["path"], names))
+    for c in v.trait["predicates"]["own"]:
+        if c["k"] == "trait" and c["trait"] in IMPLICIT:
+            continue
+        if mentions(c, lambda n: n.get("t") == "param" and n.get("name") == "Self"):
+            continue
+        expected.add(clause_s(c))
+    report.count("impls_compared")
+    report.count("predicates_compared", len(expected | actual))
+    report.sample({"impl": imp["path"], "config": cfg, "predicates": sorted(actual)})
+    is_async = any(_returns_future(m) or m.get("asyncness") for m in trait_methods(crate, v.trait))
+    tag = "%s%s" % (v.kind, "+async" if is_async else "")
+    for m in sorted(expected - actual):
+        report.add(rule, "trait-mode[%s] missing %s" % (tag, m.replace(v.trait["path"], "Trait")),
+                   "`%s` lacks the requirement `%s`" % (imp["path"], m), where=exp.label(),
+                   data={"actual": sorted(actual), "expected": sorted(expected), "config": cfg})
+    for x in sorted(actual - expected):
+        report.add(rule, "trait-mode[%s] extra %s" % (tag, x.replace(v.trait["path"], "Trait")),
+                   "`%s` has the requirement `%s`, which is neither the fixed `Sync + 'static` nor the provider bound"
+                   % (imp["path"], x), where=exp.label(),
+                   data={"actual": sorted(actual), "expected": sorted(expected), "config": cfg})
+    return v
+
+
+def check_inversion_traits(report, crate, exp, v, cfg):
+    """C07: shape of the generated TraitImpl<T> / Selector<T> traits and the bounds of the front impl."""
+    key0 = exp.ident()
+    if v.trait is None or v.impl_trait is None or len(v.impls) != 1:
+        return
+    imp = v.impls[0]
+    actual = pred_set(imp["predicates"]["own"])
+    names = [g["name"] for g in v.trait["generics"]["own"] if g["kind"] != "lifetime" and g["name"] != "Self"]
+    fixed = {"EntraitT: core::marker::Sync", "EntraitT: 'static"}
+    tolerated = {"EntraitT: core::marker::Send"}
+    ipath = v.impl_trait["path"]
+    if v.kind == "trait":
+        if v.selector is None:
+            report.add("R-SHAPE", key0 + " selector", "selector trait `%s` was not generated" % v.selector_name, where=exp.label())
+            return
+        providers = [{"EntraitT: %s<EntraitT>" % v.selector["path"]}]
+    else:
+        head = "core::convert::AsRef" if v.kind == "asref" else "core::borrow::Borrow"
+        providers = [{"EntraitT: %s<%s>" % (head, _dyn_s(ipath, ["EntraitT"] + names))},
+                     {"EntraitT: %s<%s>" % (head, _dyn_s(ipath, ["EntraitT"] + names, ["core::marker::Sync"]))}]
+    prov = next((p for p in providers if p <= actual), None)
+    report.count("impls_compared")
+    if prov is None:
+        report.add("R-PRED", key0 + " provider", "front impl `%s` lacks the provider bound (one of %s); has %s"
+                   % (imp["path"], [sorted(p) for p in providers], sorted(actual)), where=exp.label())
+    else:
+        own = set()
+        for c in v.trait["predicates"]["own"]:
+            if c["k"] == "trait" and c["trait"] in IMPLICIT:
+                continue
+            if not mentions(c, lambda n: n.get("t") == "param" and n.get("name") == "Self"):
+                own.add(clause_s(c))
+        for m in sorted(fixed - actual):
+            report.add("R-PRED", key0 + " missing " + m, "front impl lacks `%s`" % m, where=exp.label())
+        for x in sorted(actual - fixed - prov - tolerated - own):
+            report.add("R-PRED", key0 + " extra " + x, "front impl has the additional requirement `%s`" % x, where=exp.label())
+    # TraitImpl<T>: same methods in the same order; `__impl: &Impl<T>` replaces / follows the receiver
+    tm = trait_methods(crate, v.trait)
+    im = trait_methods(crate, v.impl_trait)
+    if [last_seg(m["path"]) for m in tm] != [last_seg(m["path"]) for m in im]:
+        report.add("R-SHAPE", key0 + " target-methods", "methods of `%s` %s differ from those of the trait %s"
+                   % (last_seg(ipath), [last_seg(m["path"]) for m in im], [last_seg(m["path"]) for m in tm]), where=exp.label())
+        return
+    g = [x for x in v.impl_trait["generics"]["own"] if x["name"] != "Self"]
+    if not g or g[0]["name"] != "EntraitT" or g[0]["kind"] != "type":
+        report.add("R-SHAPE", key0 + " target-generics", "first generic parameter of `%s` is not the application type" % last_seg(ipath),
+                   where=exp.label())
+    for a, b in zip(tm, im):
+        mname = last_seg(a["path"])
+        ai = [ty_s(t) for t in a["sig"]["inputs"]]
+        bi = [ty_s(t) for t in b["sig"]["inputs"]]
+        implty = "&implementation::Impl<EntraitT>"
+        want = ([implty] + ai[1:]) if v.kind == "trait" else ([ai[0], implty] + ai[1:])
+        report.count("target_methods_compared")
+        if bi != want:
+            report.add("R-SHAPE", "%s :: %s target-inputs" % (key0, mname),
+                       "`%s::%s` takes %s, expected %s" % (last_seg(ipath), mname, bi, want), where=exp.label())
+        ao, bo = a["sig"]["output"], b["sig"]["output"]
+        if not (ao.get("rpitit") or bo.get("rpitit")):
+            if ty_s(ao) != ty_s(bo):
+                report.add("R-SHAPE", "%s :: %s target-output" % (key0, mname),
+                           "`%s::%s` returns %s, the trait method returns %s" % (last_seg(ipath), mname, ty_s(bo), ty_s(ao)), where=exp.label())
+        else:
+            sa = sorted(c["s"].split(": ", 1)[-1] for c in a.get("output_bounds", []))
+            sb = sorted(c["s"].split(": ", 1)[-1] for c in b.get("output_bounds", []))
+            if sa != sb:
+                report.add("R-SHAPE", "%s :: %s target-output" % (key0, mname),
+                           "future bounds differ: %s vs %s" % (sb, sa), where=exp.label())
+    if v.impl_trait.get("vis") != v.trait.get("vis"):
+        report.add("R-VIS", key0 + " target-vis", "delegation-target trait visibility %s differs from the trait's %s"
+                   % (v.impl_trait.get("vis"), v.trait.get("vis")), where=exp.label())
+    if v.kind == "trait" and v.selector is not None:
+        items = [i for i in v.selector["items"]]
+        ok = len(items) == 1 and items[0]["kind"] == "AssocTy" and items[0]["name"] == "Target"
+        if ok:
+            at = crate.get(items[0]["path"])
+            bs = pred_set(at.get("bounds", [])) if at else set()
+            sel_params = [x["name"] for x in v.selector["generics"]["own"] if x["name"] != "Self"]
+            want = "<Self as %s<%s>>::Target: %s<%s>" % (v.selector["path"], ", ".join(sel_params), ipath, ", ".join(sel_params))
+            ok = want in bs
+            if not ok:
+                report.add("R-SHAPE", key0 + " selector-bound", "`%s::Target` is bounded by %s, expected `%s`"
+                           % (v.selector_name, sorted(bs), want), where=exp.label())
+        else:
+            report.add("R-SHAPE", key0 + " selector-items", "selector trait must have exactly one associated type `Target`", where=exp.label())
